@@ -41,6 +41,10 @@ var c14Maps = map[string]bool{"profiles": true, "devices": true, "dedicatedIPToD
 const pdb = "profiledb.(*Default)."
 
 func runC14(c *an.Ctx) {
+	dnssvcWiring(c, "C14-R10", func(dst, src string) bool {
+		n := normName(dst) + " " + normName(src)
+		return strings.Contains(n, "profiledb")
+	}, 1)
 	// ---- C14-R10: builder wiring of the components this property rests on
 	c.Floor("C14-R10", 10)
 	builderWiring(c, "C14-R10", map[string][]string{
